@@ -21,7 +21,7 @@ ASSUMPTIONS = ["vf/units_ref.py table (typed from the SI brochure) defines the S
 N = {"quick": 2400, "thorough": 32000}
 MIN_REACH = {"quick": {"definition": 1500, "composition": 1200, "si": 1500, "refusal": 400, "evaluate_expression": 300,
                        "celsius": 300, "mass_exponent_not_0_1": 200, "prefix_table": 20, "every_unit_as_source": 50,
-                       "every_unit_as_target": 50},
+                       "every_unit_as_target": 50, "evaluate_expression_with_plain_units": 300, "foreign_dimension": 100},
              "thorough": {"definition": 20000, "composition": 15000}}
 SHARD_TIMEOUT = {"quick": 300, "thorough": 2400}
 EXPS = [Fr(1), Fr(1), Fr(1), Fr(-1), Fr(2), Fr(-2), Fr(3), Fr(1, 2), Fr(-1, 2)]
@@ -195,8 +195,13 @@ def run_case(c, rec):
     # (6) evaluate_expression
     x = sympy.Symbol("x", positive=True)
     q2 = Quantity(sympy.Rational(c["value2"]) * ue)
-    shapes = [q * x + 3 * q, x * q / q2, (q / q2 + 2) ** 2 * x, sympy.sqrt(q * q) + q, sympy.sqrt(x * q / q2) * q2 + q]
+    shapes = [q * x + 3 * q, x * q / q2, (q / q2 + 2) ** 2 * x, sympy.sqrt(q * q) + q, sympy.sqrt(x * q / q2) * q2 + q,
+              # plain SymPy units and constants written directly into the expression are quantities too
+              x * q / ue + 2, (q2 / ue + x) ** 2, q * ue * x + 3 * ue ** 2,
+              sympy.sqrt(ue * q2) * x + q, x * sympy.physics.units.speed_of_light * q]
     e = shapes[c["shape"] % len(shapes)]
+    if c["shape"] % len(shapes) >= 5:
+        rec.hit("evaluate_expression_with_plain_units")
     try:
         ee = evaluate_expression(e)
         xv = mpmath.mpf(c["x"])
@@ -254,6 +259,50 @@ def celsius_case(t, rec):
         rec.violation(f"celsius-raises:{type(x).__name__}", f"Celsius helpers raised {type(x).__name__} ({str(x)[:80]}) at {t} degC", c)
 
 
+def foreign_dimension_cases(rec, r):
+    """dimensions outside the seven SI base ones (information: bit, byte, kibibyte - own values 1, 8, 8192 bit): equivalent
+    only to themselves"""
+    import sympy
+    from sympy.physics import units as U
+    from symplyphysics import Quantity, convert_to, convert_to_float
+    from symplyphysics.core.errors import UnitsError
+    info = {"bit": 1, "byte": 8, "kibibyte": 8192}
+    others = [sympy.Integer(1), U.meter, U.second, U.hertz, U.kilogram]
+    for _ in range(40):
+        a, b = r.choice(list(info)), r.choice(list(info))
+        val = sympy.Rational(r.randint(1, 999), r.choice([1, 10]))
+        extra = r.choice([sympy.Integer(1), 1 / U.second, U.meter])
+        q = Quantity(val * getattr(U, a) * extra)
+        c = {"foreign": f"{val}*{a}*{extra}", "target": f"{b}*{extra}"}
+        rec.case(("foreign", str(c)))
+        rec.hit("foreign_dimension")
+        try:
+            n = mp_of(convert_to(q, getattr(U, b) * extra))
+            if not close(n * info[b], mp_of(val) * info[a]):
+                rec.violation("definition:information", f"convert_to({c['foreign']}, {c['target']}) = {mpmath.nstr(n, 15)}; own table: {a} = {info[a]} bit, {b} = {info[b]} bit", c)
+        except Exception as x:  # pylint: disable=broad-except
+            rec.violation(f"convert_to-raises:{type(x).__name__}", f"convert_to({c['foreign']}, {c['target']}) raised {type(x).__name__}: {str(x)[:100]}", c)
+        # the information factor is a dimension of its own: dropping it (or adding it) must be refused
+        o = r.choice(others)
+        for src, tgt, label in ((q, o * extra, f"{c['foreign']} -> {o * extra}"), (Quantity(val * o * extra), getattr(U, b) * o * extra, f"{val}*{o * extra} -> {b}*{o * extra}")):
+            rec.hit("refusal")
+            try:
+                res = convert_to(src, tgt)
+                rec.violation("converts-inequivalent:information", f"convert_to({label}) returned {res} although one side carries an information dimension and the other does not", c)
+            except (UnitsError, TypeError):
+                pass
+            except Exception as x:  # pylint: disable=broad-except
+                rec.note(f"refusal by {type(x).__name__}")
+        if extra == 1:
+            try:
+                f = convert_to_float(q)
+                rec.violation("convert_to_float-dimensional:information", f"convert_to_float({c['foreign']}) returned {f} for a quantity of information", c)
+            except (UnitsError, TypeError):
+                pass
+            except Exception as x:  # pylint: disable=broad-except
+                rec.note(f"refusal by {type(x).__name__}")
+
+
 def prefix_table(rec):
     from symplyphysics import prefixes
     for name, p in units_ref.PREFIXES.items():
@@ -279,7 +328,7 @@ def gen_case(r, names):
     vspec = same_vector_spec(r, qvec, names)
     wspec = rand_spec(r, names, 1)
     return {"q": qspec, "u": uspec, "v": vspec, "w": wspec, "value": value, "value_kind": kind,
-            "value2": str(Fr(r.randint(1, 999), r.choice([1, 10, 100]))), "shape": r.randrange(5), "x": str(r.randint(1, 50) / 10)}
+            "value2": str(Fr(r.randint(1, 999), r.choice([1, 10, 100]))), "shape": r.randrange(10), "x": str(r.randint(1, 50) / 10)}
 
 
 def work(spec, rec):
@@ -291,6 +340,8 @@ def work(spec, rec):
     names = units_ref.available_units()
     if spec["shard"] == 0:
         prefix_table(rec)
+    if spec["shard"] < 4:
+        foreign_dimension_cases(rec, r)
     for i in range(spec["cases"]):
         rec.checkpoint()
         c = gen_case(r, names)
